@@ -31,15 +31,32 @@ func (s *coSched) sync() {
 
 // layers of a C20 case: chain b0 <- d0 <- d1 (as many as "layers" lists), each with its
 // bind imports
-func c20Layers(c Case) (names []string, imports [][]string) {
+func c20Layers(c Case) (names []string, imports [][]string, bases []string) {
 	ls, _ := c["layers"].([]interface{})
+	given := unhxs(c["names"])
 	for i, l := range ls {
-		names = append(names, []string{"b0", "d0", "d1"}[i])
+		if len(given) > 0 {
+			names = append(names, given[i])
+		} else {
+			names = append(names, []string{"b0", "d0", "d1"}[i])
+		}
 		imports = append(imports, unhxs(l))
 	}
 	if len(names) == 0 { // old single-layer form
 		names = []string{"b0"}
 		imports = [][]string{unhxs(c["targets"])}
+	}
+	// a chain unless the case says otherwise (a forest: "bases" names every layer's base)
+	if b, ok := c["bases"].([]interface{}); ok && len(b) == len(names) {
+		bases = unhxs(c["bases"])
+	} else {
+		for i := range names {
+			if i == 0 {
+				bases = append(bases, "")
+			} else {
+				bases = append(bases, names[i-1])
+			}
+		}
 	}
 	return
 }
@@ -56,13 +73,13 @@ func runConcurrent(c Case) interface{} {
 	defer os.RemoveAll(root)
 	e := &scenarioEnv{root: root, kernel: newSimKernel()}
 	e.cfg = cfgFromCase(defaultCfg(), e.virt)
-	names, imports := c20Layers(c)
+	names, imports, bases := c20Layers(c)
 	nsrc := 0
 	for li, name := range names {
 		lp := root + "/layers/" + name
 		var cfgLines []string
-		if li > 0 {
-			cfgLines = append(cfgLines, "base "+names[li-1], "")
+		if bases[li] != "" {
+			cfgLines = append(cfgLines, "base "+bases[li], "")
 			os.MkdirAll(lp+"/overlayfs/workdir", 0755)
 			os.MkdirAll(lp+"/overlayfs/upperdir", 0755)
 		}
@@ -98,6 +115,9 @@ func runConcurrent(c Case) interface{} {
 		}
 		if f[0] == "mount" {
 			return layers.Mount(layer)
+		}
+		if f[0] == "umountall" {
+			return layers.Unmount("", true)
 		}
 		if f[0] == "chroot" {
 			// the configured chroot program is /bin/true: what is observed is the implicit mount
@@ -183,6 +203,15 @@ func runConcurrent(c Case) interface{} {
 		return hxs(mps)
 	}
 	out := obj("kernel", table(), "r0", results[0], "r1", results[1])
+	// the order in which umount -all visits the layers is the implementation's (reverse of its
+	// normalized order); the model takes it as given
+	if ls, err := manage.FindLayers(e.cfg, &config.Opts{}); err == nil {
+		order := []string{}
+		for _, l := range ls.Layers() {
+			order = append(order, l.Name)
+		}
+		out["order"] = hxs(order)
+	}
 	// afterwards, alone: e.g. one later umount
 	fs.SyscallMount, fs.SyscallUnmount, fs.GetAlternateProbeMountsCursor = baseMount, baseUmount, baseCursor
 	then := []interface{}{}
@@ -293,6 +322,53 @@ func init() {
 			}
 			emit(Case{"op": "conc.run", "layers": []interface{}{hxs([]string{"/mnt/a"}), hxs([]string{"/mnt/a", "/var/x"})},
 				"cmd0": "chroot d0", "cmd1": "mount d0", "pre": hxs(nil), "then": hxs([]string{"umount d0"}), "sched": sched})
+		}
+		// forests: two families a <- a2 and b <- c; umount -all against mount / chroot / umount of
+		// one layer.  First the shaped race: -all has unmounted one family when the other
+		// process mounts a derived layer of the next, at every cut point; then random cases.
+		fnames := []string{"a", "a2", "b", "c"}
+		fbases := []string{"", "a", "", "b"}
+		flayers := []interface{}{hxs([]string{"/mnt/a"}), hxs([]string{"/var/x"}), hxs([]string{"/mnt/a"}), hxs([]string{"/mnt/b"})}
+		forest := func(c0, c1 string, pre, then []string, sched []interface{}) {
+			emit(Case{"op": "conc.run", "layers": flayers, "names": hxs(fnames), "bases": hxs(fbases), "cmd0": c0, "cmd1": c1,
+				"pre": hxs(pre), "then": hxs(then), "sched": sched})
+		}
+		for cut := 1; cut <= 10; cut++ {
+			sched := []interface{}{}
+			for j := 0; j < cut; j++ {
+				sched = append(sched, false)
+			}
+			for j := 0; j < 30; j++ {
+				sched = append(sched, true)
+			}
+			forest("umountall", "mount a2", []string{"mount a", "mount c"}, nil, sched)
+			forest("umountall", "chroot c", []string{"mount a2", "mount b"}, nil, sched)
+		}
+		nforest := 30
+		if tier == "thorough" {
+			nforest = 900
+		}
+		for i := 0; i < nforest; i++ {
+			pre := []string{}
+			for _, l := range fnames {
+				if g.Chance(1, 3) {
+					pre = append(pre, "mount "+l)
+				}
+			}
+			other := g.Pick("mount", "mount", "chroot", "umount") + " " + fnames[g.Intn(4)]
+			sched := make([]interface{}, 2+g.Intn(20))
+			for j := range sched {
+				sched[j] = g.Chance(1, 2)
+			}
+			then := []string{}
+			if g.Chance(1, 3) {
+				then = []string{"umountall"}
+			}
+			if g.Chance(1, 2) {
+				forest("umountall", other, pre, then, sched)
+			} else {
+				forest(other, "umountall", pre, then, sched)
+			}
 		}
 		// one target, both mount with stale caches, then ONE later umount must clean up
 		emit(Case{"op": "conc.run", "layers": []interface{}{hxs([]string{"/mnt/a"})}, "cmd0": "mount b0", "cmd1": "mount b0",
